@@ -20,7 +20,17 @@ import (
 	"github.com/MinterTeam/mhub2/module/x/mhub2/types"
 )
 
-var regChains = []string{"ethereum", "bsc", "hub"}
+var regChains = []string{"ethereum", "bsc", "minter", "hub"}
+
+// operator addresses of the registry suite: the leading bytes cover both ends of the key space (0x00.., 0xff..)
+func regVal(i int) sdk.ValAddress {
+	b := make([]byte, 20)
+	for j := range b {
+		b[j] = byte(0x10 + i)
+	}
+	b[0] = []byte{0xff, 0x00, 0x10, 0x7f, 0x80, 0xfe, 0x01}[i%7]
+	return sdk.ValAddress(b)
+}
 
 func ethKey(i int) *ecdsa.PrivateKey {
 	b := make([]byte, 32)
@@ -135,13 +145,18 @@ func observeReg(env *Env, otxs []regOtx, askers []sdk.AccAddress) V {
 
 func runRegCase(seed uint64, nOps int, restart bool, stats map[string]int) (V, V) {
 	rng := &Rng{s: seed}
-	env := NewEnv(EnvOpts{Params: DefaultTestParams(regChains), Tokens: nil})
+	var regTokens []*types.TokenInfo
+	for i, t := range []struct{ chain, id, denom string }{{"ethereum", ethAddrOf(0xc0, 1), "hub"}, {"bsc", ethAddrOf(0xc0, 1), "hub"}, {"minter", "10", "hub"},
+		{"ethereum", ethAddrOf(0xc0, 2), "usdx"}, {"bsc", ethAddrOf(0xc0, 2), "usdx"}, {"minter", "1", "usdx"}} {
+		regTokens = append(regTokens, &types.TokenInfo{Id: uint64(i + 1), Denom: t.denom, ChainId: t.chain, ExternalTokenId: t.id, ExternalDecimals: 18, Commission: sdk.ZeroDec()})
+	}
+	env := NewEnv(EnvOpts{Params: DefaultTestParams(regChains), Tokens: regTokens})
 	nVals := 2 + rng.Intn(4)
 	seqs := make([]uint64, nVals)
 	bonded := make([]bool, nVals)
 	var askers []sdk.AccAddress
 	for i := 0; i < nVals; i++ {
-		askers = append(askers, sdk.AccAddress(valAddr(i)))
+		askers = append(askers, sdk.AccAddress(regVal(i)))
 		bonded[i] = true
 	}
 	for i := 0; i < 4; i++ {
@@ -161,10 +176,10 @@ func runRegCase(seed uint64, nOps int, restart bool, stats map[string]int) (V, V
 		env.Staking.Vals = nil
 		var vv []V
 		for i := 0; i < nVals; i++ {
-			env.Staking.Vals = append(env.Staking.Vals, ValIn{Oper: valAddr(i), Power: 10, Bonded: bonded[i]})
-			acc := authtypes.NewBaseAccount(sdk.AccAddress(valAddr(i)), nil, uint64(100+i), seqs[i])
+			env.Staking.Vals = append(env.Staking.Vals, ValIn{Oper: regVal(i), Power: 10, Bonded: bonded[i]})
+			acc := authtypes.NewBaseAccount(sdk.AccAddress(regVal(i)), nil, uint64(100+i), seqs[i])
 			env.Acc.SetAccount(env.Ctx, acc)
-			vv = append(vv, L(B(valAddr(i).String()), B(sdk.AccAddress(valAddr(i)).String()), Bool(bonded[i]), U(seqs[i])))
+			vv = append(vv, L(B(regVal(i).String()), B(sdk.AccAddress(regVal(i)).String()), Bool(bonded[i]), U(seqs[i])))
 		}
 		record(L(I(3), L(vv...)), 0)
 	}
@@ -178,16 +193,93 @@ func runRegCase(seed uint64, nOps int, restart bool, stats map[string]int) (V, V
 	setVals()
 	cdc := keeper.MakeTestMarshaler()
 	nextNonce := map[string]uint64{}
+	execBatch := func(o regOtx) {
+		b := o.otx.(*types.BatchTx)
+		ev := &types.BatchExecutedEvent{EventNonce: 1, ExternalCoinId: b.ExternalTokenId, BatchNonce: b.BatchNonce, ExternalHeight: 10,
+			TxHash: "0xexecuted", FeePaid: sdk.ZeroInt(), FeePayer: ethAddrOf(0x90, 0)}
+		code, _ := env.Tx(nil, func(ctx sdk.Context) error { return env.K.ExternalEventProcessor.Handle(ctx, types.ChainID(o.chain), ev) })
+		stats[fmt.Sprintf("executed_code%d", code)]++
+		var rest []regOtx
+		for _, x := range otxs {
+			if env.K.GetOutgoingTx(env.Ctx, types.ChainID(x.chain), x.otx.GetStoreIndex(types.ChainID(x.chain))) != nil {
+				rest = append(rest, x)
+			}
+		}
+		otxs = rest
+		setOtxs()
+	}
+	// a fixed opening for every third case: two validators with keys on Minter, two batches of one coin, both
+	// confirmed, the later one observed as executed first (the Minter multisig keeps the earlier one alive)
+	if seed%3 == 0 && nVals >= 2 {
+		chain := "minter"
+		regOK := func(vi, oi, ki int) {
+			val := regVal(vi)
+			key := ethKey(ki)
+			eth := crypto.PubkeyToAddress(key.PublicKey)
+			nonce := uint64(0)
+			if seqs[vi] > 0 {
+				nonce = seqs[vi] - 1
+			}
+			h := crypto.Keccak256Hash(cdc.MustMarshal(&types.DelegateKeysSignMsg{ValidatorAddress: val.String(), Nonce: nonce})).Bytes()
+			sig, err := types.NewEthereumSignature(h, key)
+			if err != nil {
+				panic(err)
+			}
+			msg := &types.MsgDelegateKeys{ValidatorAddress: val.String(), OrchestratorAddress: orchAddr(oi).String(), ExternalAddress: eth.Hex(), EthSignature: sig, ChainId: chain}
+			code, _ := env.Tx(nil, func(ctx sdk.Context) error {
+				_, err := env.Msg.SetDelegateKeys(sdk.WrapSDKContext(ctx), msg)
+				return err
+			})
+			record(L(I(1), B(chain), B(val.String()), B(orchAddr(oi).String()), Bb(eth.Bytes()), L(Bb(eth.Bytes()))), code)
+		}
+		newBatch := func(id string) regOtx {
+			nextNonce[chain]++
+			otx := &types.BatchTx{BatchNonce: nextNonce[chain], ExternalTokenId: id, Height: 5}
+			env.K.SetOutgoingTx(env.Ctx, types.ChainID(chain), otx)
+			o := regOtx{chain, otx}
+			otxs = append(otxs, o)
+			setOtxs()
+			return o
+		}
+		confirmOK := func(o regOtx, vi int) {
+			b := o.otx.(*types.BatchTx)
+			claimed := env.K.GetValidatorExternalAddress(env.Ctx, types.ChainID(chain), regVal(vi))
+			sigBytes := []byte(fmt.Sprintf("sig-%d-opening", vi))
+			conf := &types.BatchTxConfirmation{ExternalTokenId: b.ExternalTokenId, BatchNonce: b.BatchNonce, ExternalSigner: claimed.Hex(), Signature: sigBytes}
+			any, err := types.PackConfirmation(conf)
+			if err != nil {
+				panic(err)
+			}
+			signer := sdk.AccAddress(regVal(vi))
+			msg := &types.MsgSubmitExternalTxConfirmation{Confirmation: any, Signer: signer.String(), ChainId: chain}
+			code, _ := env.Tx(nil, func(ctx sdk.Context) error {
+				_, err := env.Msg.SubmitTxConfirmation(sdk.WrapSDKContext(ctx), msg)
+				return err
+			})
+			record(L(I(2), B(chain), B(signer.String()), Bb(conf.GetStoreIndex(types.ChainID(chain))), Bb(claimed.Bytes()), Bb(sigBytes)), code)
+		}
+		regOK(0, 0, 0)
+		regOK(1, 1, 1)
+		coin := []string{"10", "1"}[rng.Intn(2)]
+		b1 := newBatch(coin)
+		b2 := newBatch(coin)
+		confirmOK(b1, 0)
+		if rng.Chance(1, 2) {
+			confirmOK(b2, 1)
+		}
+		execBatch(b2)
+		stats["minter_opening"]++
+	}
 	for len(ops) < nOps {
 		c := rng.Intn(100)
 		switch {
 		case c < 35: // MsgDelegateKeys
-			chain := regChains[rng.Intn(2)]
+			chain := regChains[rng.Intn(3)]
 			if rng.Chance(1, 10) {
 				chain = "hub"
 			}
 			vi := rng.Intn(nVals + 1)
-			val := valAddr(vi) // vi == nVals: unknown validator
+			val := regVal(vi) // vi == nVals: unknown validator
 			oi := rng.Intn(4)
 			ki := rng.Intn(6)
 			key := ethKey(ki)
@@ -221,6 +313,9 @@ func runRegCase(seed uint64, nOps int, restart bool, stats map[string]int) (V, V
 			if rng.Chance(1, 10) {
 				sig = sig[:10+rng.Intn(50)]
 			}
+			if rng.Chance(1, 12) {
+				sig = make([]byte, 65) // well-sized bytes nobody signed (recovery fails)
+			}
 			// what the correct message recovers to
 			rec := L()
 			if len(sig) == 65 {
@@ -236,7 +331,7 @@ func runRegCase(seed uint64, nOps int, restart bool, stats map[string]int) (V, V
 			// the orchestrator may be any account, also another validator's operator account
 			orch := orchAddr(oi)
 			if rng.Chance(1, 5) {
-				orch = sdk.AccAddress(valAddr(rng.Intn(nVals)))
+				orch = sdk.AccAddress(regVal(rng.Intn(nVals)))
 			}
 			// spellings: lower-case hex instead of the EIP-55 checksum form, upper-case bech32
 			ethStr, orchStr := eth.Hex(), orch.String()
@@ -265,27 +360,39 @@ func runRegCase(seed uint64, nOps int, restart bool, stats map[string]int) (V, V
 				continue
 			}
 			o := otxs[rng.Intn(len(otxs))]
+			if rng.Chance(1, 2) {
+				// prefer a batch that has a newer batch of the same token behind it (it stays when the newer one is executed on Minter)
+				for _, x := range otxs {
+					for _, y := range otxs {
+						xb, ok1 := x.otx.(*types.BatchTx)
+						yb, ok2 := y.otx.(*types.BatchTx)
+						if ok1 && ok2 && x.chain == y.chain && xb.ExternalTokenId == yb.ExternalTokenId && xb.BatchNonce < yb.BatchNonce {
+							o = x
+						}
+					}
+				}
+			}
 			chain := o.chain
 			if rng.Chance(1, 10) {
-				chain = regChains[rng.Intn(3)]
+				chain = regChains[rng.Intn(4)]
 			}
 			vi := rng.Intn(nVals)
 			if rng.Chance(3, 4) { // prefer a validator that has a key on this chain
 				for k := 0; k < nVals; k++ {
-					if env.K.GetValidatorExternalAddress(env.Ctx, types.ChainID(chain), valAddr((vi+k)%nVals)) != (common.Address{}) {
+					if env.K.GetValidatorExternalAddress(env.Ctx, types.ChainID(chain), regVal((vi+k)%nVals)) != (common.Address{}) {
 						vi = (vi + k) % nVals
 						break
 					}
 				}
 			}
-			signer := sdk.AccAddress(valAddr(vi))
+			signer := sdk.AccAddress(regVal(vi))
 			switch rng.Intn(6) {
 			case 0:
 				signer = orchAddr(rng.Intn(4))
 			case 1:
 				signer = userAddr(rng.Intn(2))
 			}
-			claimed := env.K.GetValidatorExternalAddress(env.Ctx, types.ChainID(chain), valAddr(vi))
+			claimed := env.K.GetValidatorExternalAddress(env.Ctx, types.ChainID(chain), regVal(vi))
 			switch rng.Intn(7) {
 			case 0:
 				claimed = crypto.PubkeyToAddress(ethKey(rng.Intn(6)).PublicKey)
@@ -325,8 +432,32 @@ func runRegCase(seed uint64, nOps int, restart bool, stats map[string]int) (V, V
 		case c < 85: // staking change
 			bonded[rng.Intn(nVals)] = rng.Chance(3, 4)
 			setVals()
+		case c < 90: // a batch is observed as executed: it leaves the store (on ethereum/bsc together with the older
+			// batches of its token); the confirmations of every transaction that stays must stay as well
+			var bs []regOtx
+			for _, o := range otxs {
+				if _, ok := o.otx.(*types.BatchTx); ok {
+					bs = append(bs, o)
+				}
+			}
+			if len(bs) == 0 {
+				continue
+			}
+			o := bs[rng.Intn(len(bs))]
+			if rng.Chance(3, 4) {
+				// prefer a batch that leaves an older batch of its token behind
+				for _, x := range bs {
+					for _, y := range bs {
+						xb, yb := x.otx.(*types.BatchTx), y.otx.(*types.BatchTx)
+						if x.chain == y.chain && xb.ExternalTokenId == yb.ExternalTokenId && yb.BatchNonce < xb.BatchNonce {
+							o = x
+						}
+					}
+				}
+			}
+			execBatch(o)
 		default: // a new outgoing tx
-			chain := regChains[rng.Intn(2)]
+			chain := regChains[rng.Intn(3)]
 			nextNonce[chain]++
 			n := nextNonce[chain]
 			var otx types.OutgoingTx
@@ -334,7 +465,16 @@ func runRegCase(seed uint64, nOps int, restart bool, stats map[string]int) (V, V
 			case 0:
 				otx = &types.SignerSetTx{Nonce: n, Height: 5}
 			case 1:
-				otx = &types.BatchTx{BatchNonce: n, ExternalTokenId: []string{ethAddrOf(0xc0, 1), ethAddrOf(0xc0, 2), "10", "1"}[rng.Intn(4)], Height: 5}
+				ids := []string{ethAddrOf(0xc0, 1), ethAddrOf(0xc0, 2), "10", "1"}
+				id := ids[rng.Intn(4)]
+				if rng.Chance(3, 4) { // mostly a token that is listed on this chain
+					if chain == "minter" {
+						id = ids[2+rng.Intn(2)]
+					} else {
+						id = ids[rng.Intn(2)]
+					}
+				}
+				otx = &types.BatchTx{BatchNonce: n, ExternalTokenId: id, Height: 5}
 			default:
 				otx = &types.ContractCallTx{InvalidationNonce: n, InvalidationScope: []byte{byte(1 + rng.Intn(3)), 7}, Height: 5}
 			}
